@@ -17,6 +17,7 @@
 #include <fcntl.h>
 #include <signal.h>
 #include <stdarg.h>
+#include <limits.h>
 #include <stdio.h>
 #include <stdlib.h>
 #include <string.h>
@@ -29,6 +30,7 @@ size_t __sanitizer_get_current_allocated_bytes(void);
 extern size_t yr_verif_arena_initial_size;   /* hook H1 (compiler.c) */
 extern void (*yr_verif_atom_hook)(uint32_t string_idx, const uint8_t* bytes, int length, int backtrack);   /* H3 */
 extern void (*yr_verif_cand_hook)(size_t pos, uint32_t string_idx, int backtrack);                         /* H4 */
+extern void (*yr_verif_chain_hook)(YR_SCAN_CONTEXT* context, YR_STRING* s, uint64_t off, int32_t len);      /* H7 (scan.c) */
 #endif
 
 #ifdef YV_FAULT
@@ -145,6 +147,32 @@ static void on_atom(uint32_t sidx, const uint8_t* bytes, int length, int backtra
 static void on_cand(size_t pos, uint32_t sidx, int backtrack)
 {
   fprintf(out, "{\"e\":\"Cand\",\"pos\":%zu,\"s\":%u,\"bt\":%d}\n", pos, sidx, backtrack);
+}
+/* H7: one event per call of the chain confirmation algorithm, with the full projected state of the chain AFTER the call:
+   the unconfirmed lists of every piece and the confirmed list of the head.  An unbounded gap (INT_MAX) is logged as -1. */
+static void on_chain(YR_SCAN_CONTEXT* ctx, YR_STRING* s, uint64_t off, int32_t len)
+{
+  YR_STRING* head = s;
+  int p = 1, n;
+  while (head->chained_to != NULL) { head = head->chained_to; p++; }
+  YR_STRING* last = head;
+  n = 1;
+  while (last->idx + 1 < ctx->rules->num_strings && (last + 1)->chained_to == last) { last++; n++; }
+  fprintf(out, "{\"e\":\"ChainCb\",\"head\":%u,\"n\":%d,\"p\":%d,\"off\":%llu,\"len\":%d,\"gaps\":[", head->idx, n, p, (unsigned long long) off, len);
+  for (int k = 1; k < n; k++)
+    fprintf(out, "%s[%d,%d]", k > 1 ? "," : "", (head + k)->chain_gap_min, (head + k)->chain_gap_max == INT_MAX ? -1 : (head + k)->chain_gap_max);
+  fprintf(out, "],\"unc\":[");
+  for (int k = 0; k < n - 1; k++)
+  {
+    fprintf(out, "%s[", k ? "," : "");
+    for (YR_MATCH* m = ctx->unconfirmed_matches[(head + k)->idx].head; m != NULL; m = m->next)
+      fprintf(out, "%s[%lld,%d,%d]", m->prev ? "," : "", (long long) m->offset, m->match_length, m->chain_length);
+    fprintf(out, "]");
+  }
+  fprintf(out, "],\"tailunc\":%d,\"conf\":[", ctx->unconfirmed_matches[last->idx].count);
+  for (YR_MATCH* m = ctx->matches[head->idx].head; m != NULL; m = m->next)
+    fprintf(out, "%s[%lld,%d]", m->prev ? "," : "", (long long) m->offset, m->match_length);
+  fprintf(out, "]}\n");
 }
 #endif
 
@@ -637,6 +665,7 @@ int main(int argc, char** argv)
       else if (!strcmp(tok[1], "iterlog")) iter_log = atoi(tok[2]);
       else if (!strcmp(tok[1], "flushscan")) flush_scan = atoi(tok[2]);
 #ifdef YARA_VERIF
+      else if (!strcmp(tok[1], "chainhook")) yr_verif_chain_hook = atoi(tok[2]) ? on_chain : NULL;
       else if (!strcmp(tok[1], "achooks")) { yr_verif_atom_hook = atoi(tok[2]) ? on_atom : NULL; yr_verif_cand_hook = atoi(tok[2]) ? on_cand : NULL; }
 #endif
       else if (!strcmp(tok[1], "walkmodules")) { walk_modules = atoi(tok[2]); if (walk_modules && !freopen("/dev/null", "w", stdout)) {} }
